@@ -113,6 +113,23 @@ def mutations(gc, P, comp_bytes, unc_bytes, rng, pool):
                     t = bytearray(src)
                     t[48 * fi] |= bit
                     out.append(('flagbits-in-field%d' % fi, form, bytes(t)))
+    # a point of an isomorphic curve y^2 = x^3 + lambda^6 b: (lambda^2 x, lambda^3 y).  The group-law formulas never use b, so
+    # multiplication by r still gives the identity: only the curve-equation check can reject it (uncompressed form)
+    for _ in range(2):
+        if gc.which == 1:
+            lam = rng.randrange(2, Q)
+            l2, l3 = lam * lam % Q, lam * lam * lam % Q
+            if pow(lam, 6, Q) == 1:
+                continue
+            iso = (P[0] * l2 % Q, P[1] * l3 % Q)
+        else:
+            lam = (rng.randrange(1, Q), rng.randrange(Q))
+            l2 = O.f2_sqr(lam)
+            l3 = O.f2_mul(l2, lam)
+            if O.f2_pow(lam, 6) == O.F2_ONE:
+                continue
+            iso = (O.f2_mul(P[0], l2), O.f2_mul(P[1], l3))
+        out.append(('isomorphic-curve-point', False, coord_bytes(gc, iso[0]) + coord_bytes(gc, iso[1])))
     # abscissa of a curve point outside the subgroup, both forms
     for S in pool.curve[:2]:
         xb = coord_bytes(gc, S[0])
@@ -314,7 +331,7 @@ def run(ctx):
                      'c.%s_unmarshal|%s/reject:malformed-infinity' % (G, c), 'c.%s_unmarshal|%s/reject:wrong-form-flag' % (G, c)]
         need += ['c.%s_unmarshal|comp/reject:x-has-no-y' % G, 'c.%s_unmarshal|unc/reject:off-curve' % G, 'c.%s_unmarshal|unc/reject:greater-flag-on-uncompressed' % G,
                  'c.%s_unmarshal|unc/reject:flag-bits-in-later-field' % G, 'c.%s_unmarshal|comp/accept/flip-greater' % G, 'c.%s_marshal|comp/identity' % G]
-    need += ['c.g2_unmarshal|comp/reject:flag-bits-in-later-field', 'c.g1_unmarshal|comp/reject:wrong-form-flag/flags010-zero-payload', 'c.g2_unmarshal|unc/reject:wrong-form-flag/flags110-zero-payload',
+    need += ['c.g1_unmarshal|unc/reject:off-curve/isomorphic-curve-point', 'c.g2_unmarshal|unc/reject:off-curve/isomorphic-curve-point', 'c.g2_unmarshal|comp/reject:flag-bits-in-later-field', 'c.g1_unmarshal|comp/reject:wrong-form-flag/flags010-zero-payload', 'c.g2_unmarshal|unc/reject:wrong-form-flag/flags110-zero-payload',
              'c.g1_unmarshal|comp/accept/flags110-zero-payload', 'c.g1_unmarshal|unc/accept/flags010-zero-payload']
     for r in need:
         if not any(k.startswith(r) for k in ctx.classes):
